@@ -41,7 +41,7 @@ Matched(i) == /\ l' = l + 1
 TReset ==
   /\ IsEvent("Reset")
   /\ l' = l + 1 /\ run' = E.run
-  /\ LET ok == E.fam = "ticket" /\ ~("aborted" \in DOMAIN E) /\ E.dpanic = 0 IN
+  /\ LET ok == E.fam = "ticket" /\ ~("aborted" \in DOMAIN E) /\ E.dpanic = 0 /\ E.cpanic = 0 IN
      /\ ign' = ~ok
      /\ IF ok THEN ResetWith(CfgOfRun(E)) /\ expv' = [t \in 0..E.threads |-> << >>]
         ELSE UNCHANGED <<vars, expv>>
